@@ -24,7 +24,7 @@ impl FunctionMarkupPass {
         func: &Rc<Function>,
     ) -> Result<MarkData, Box<CfgError>> {
         let mut defs = RegisterSet::new(); // Registers this function writes to
-        let mut returns = None; // Return instructions in this function
+        let mut found_returns = vec![]; // Return instructions in this function
         let mut instructions = vec![];
 
         // Traverse the CFG for all nodes reachable from the entry point
@@ -40,36 +40,42 @@ impl FunctionMarkupPass {
 
             // Collect return instructions
             if node.is_return() {
-                // Set the newly found return to be an jump to the previously
-                // found return.
-                if let Some(ref prev_ret) = returns {
-                    let found_ret = Rc::clone(&node);
+                found_returns.push(Rc::clone(&node));
+            }
+        }
 
-                    // Fix the prevs & nexts of both returns
-                    found_ret.clear_nexts();
-                    found_ret.insert_next(Rc::clone(prev_ret));
-                    prev_ret.insert_prev(Rc::clone(&found_ret));
+        // The traversal visits successors in hash order: pick the exit by
+        // position in the program, so that the choice is the same in every run.
+        found_returns.sort_by_key(|n| n.order());
+        instructions.sort_by_key(|n| n.order());
+        let mut returns: Option<Rc<CfgNode>> = None;
+        for found_ret in found_returns {
+            // Set every further return to be an jump to the first return.
+            if let Some(ref prev_ret) = returns {
+                // Fix the prevs & nexts of both returns
+                found_ret.clear_nexts();
+                found_ret.insert_next(Rc::clone(prev_ret));
+                prev_ret.insert_prev(Rc::clone(&found_ret));
 
-                    // Convert the found return into a jump
-                    let info = Token::new(
-                        TokenType::Symbol("return".to_string()),
-                        found_ret.raw_text(),
-                        found_ret.range(),
-                        found_ret.file(),
-                    );
+                // Convert the found return into a jump
+                let info = Token::new(
+                    TokenType::Symbol("return".to_string()),
+                    found_ret.raw_text(),
+                    found_ret.range(),
+                    found_ret.file(),
+                );
 
-                    let inst = With::new(JumpLinkType::Jal, info.clone());
-                    let rd = With::new(Register::X0, info.clone());
-                    let name = With::new(LabelString::new("__return__"), info.clone());
-                    let new_node =
-                        ParserNode::new_jump_link(inst, rd, name, prev_ret.node().token().clone());
-                    #[allow(unused_must_use)]
-                    found_ret.set_node(new_node);
-                }
-                // If this is the first return node, save it
-                else {
-                    returns = Some(Rc::clone(&node));
-                }
+                let inst = With::new(JumpLinkType::Jal, info.clone());
+                let rd = With::new(Register::X0, info.clone());
+                let name = With::new(LabelString::new("__return__"), info.clone());
+                let new_node =
+                    ParserNode::new_jump_link(inst, rd, name, prev_ret.node().token().clone());
+                #[allow(unused_must_use)]
+                found_ret.set_node(new_node);
+            }
+            // The first return node in the program is the exit
+            else {
+                returns = Some(found_ret);
             }
         }
 
